@@ -11,7 +11,7 @@ def gen_script(ctx, q):
         keep = []
         for i, (f, ch) in enumerate(combos):
             mj = formats.name(f).split("/")[0]
-            if mj in ("WAV", "AIFF", "RAW") or (hash((f, ctx.seed)) + ch) % 3 == 0:
+            if mj in ("WAV", "AIFF", "RAW") or (vlib.dhash((f, ctx.seed)) + ch) % 3 == 0:
                 keep.append((f, ch))
         combos = keep
     L = []
